@@ -29,9 +29,11 @@
 
    Modelled opcodes: all of Lang/Ssa.v — iadd uadd isub usub imult umult idiv
    udiv imod umod band bor bxor bclr, the 8 ordered comparisons, eq neq and or
-   not mov smov lshift rshift srshift slice amov index phi, and ret.
-   NOT modelled: concat, bts, btc, circ, builtin, gc (Lang/Ssa.v has no
-   constructor for them: [Ounsupported] registers no wires and emits nothing).
+   not mov smov lshift rshift srshift slice amov index phi concat bts btc,
+   builtin (circuits.Hamming, the only builtin ast/builtin.go emits), and ret.
+   NOT modelled: circ (native circuit files), the floating point opcodes (no
+   case in Program.Circuit either); gc is a no-op of Program.Circuit
+   ([Ounsupported] registers no wires and emits nothing).
    Errors/panics of the Go code (slice bounds from >= to, NewMUX width
    mismatch, a destination shorter than a copied range ...) have no
    counterpart: the monad is total; the executable predicate [cg_wf] below
@@ -41,7 +43,7 @@
    No proofs in this file. *)
 From Coq Require Import ZArith NArith List Bool Arith.
 From Mpc Require Import Gen.Thresholds Lang.Mini Lang.Ssa Builders.Emit Builders.Adder Builders.Sub
-  Builders.Mult Builders.Div Builders.Cmp Builders.Mux Builders.Index Builders.Bitwise.
+  Builders.Mult Builders.Div Builders.Cmp Builders.Mux Builders.Index Builders.Bitwise Builders.Hamming.
 Import ListNotations.
 Open Scope monad_scope.
 Local Open Scope nat_scope.
@@ -147,6 +149,10 @@ Definition cg_body (i : instr) (ws : list (list wire)) : M (list wire) :=
       wired (fun b => if Nat.ltb b from || Nat.leb to b then nth b w1 z else nth (b - from) w0 z)
   | Oindex => bld (new_index (i_aux i) (skipn (cst 1) w0) w2)
   | Ophi => bldu (new_mux w0 w1 w2)
+  | Oconcat => ret (w0 ++ w1)        (* copy(o, wires[0]); o[len(wires[0])+i] = wires[1][i] *)
+  | Obts => bld (bit_set_test w0 (cst 1))
+  | Obtc => bld (bit_clr_test w0 (cst 1))
+  | Ohamming => bld (hamming w0 w1)  (* instr.Builtin(cc, wires[0], wires[1], o) *)
   | Ounsupported => ret []
   end.
 
@@ -202,9 +208,10 @@ Definition circuit_of_ssa_gen (tg : bool) (p : sprog) : ccirc :=
    Division: the divider theorems of C07 assume a non-zero divisor and quotient
    and remainder destinations of full width; circuitgen passes nil for one of
    them.  Lang/CircGenDivProof.v re-proves NewUDivider / NewIDivider for that
-   calling convention and for a zero divisor (udiv umod: any two operand
-   widths; idiv imod: equal operand widths — NewIDivider zero-pads a narrower
-   operand, which is finding F26).
+   calling convention, for a zero divisor, for operands of any two widths (the
+   narrower one is zero padded, also by NewIDivider) and for a destination
+   narrower than the operands (ssagen types x / 5 by x, the literal sits in a
+   32-bit container).
    NOT covered (cg_wf_instr = false): the opcodes Lang/Ssa.v does not model. *)
 Definition is_const (o : opnd) : bool := match o with OConst _ _ _ => true | _ => false end.
 
@@ -221,8 +228,8 @@ Definition cg_wf_instr (i : instr) : bool :=
   | Oiadd | Ouadd | Oimult | Oumult | Oisub | Ousub =>
       nargs 2 && Nat.leb 1 ob && Nat.leb ob mx
   | Oband | Obor | Obxor | Obclr => nargs 2 && Nat.leb 1 mx && Nat.leb ob mx
-  | Oudiv | Oumod => nargs 2 && Nat.leb 1 mx && Nat.eqb ob mx
-  | Oidiv | Oimod => nargs 2 && Nat.leb 1 b0 && Nat.eqb b1 b0 && Nat.eqb ob b0
+  | Oudiv | Oumod => nargs 2 && Nat.leb 1 mx && Nat.leb ob mx
+  | Oidiv | Oimod => nargs 2 && Nat.leb 1 mx && Nat.leb 1 ob && Nat.leb ob mx
   | Oult | Oule | Ougt | Ouge | Oeq | Oneq => nargs 2 && Nat.leb 1 mx && Nat.eqb ob 1
   | Oilt | Oile | Oigt | Oige => nargs 2 && Nat.leb 1 mx && Nat.eqb ob 1
   | Oand | Oor => nargs 2 && Nat.eqb b0 1 && Nat.eqb b1 1 && Nat.eqb ob 1
@@ -241,13 +248,26 @@ Definition cg_wf_instr (i : instr) : bool :=
       Nat.leb (cst 1) b0 && Nat.leb 1 ((b0 - cst 1) / i_aux i) &&
       Nat.eqb ((b0 - cst 1) mod i_aux i) 0 && Nat.leb 1 b2
   | Ophi => nargs 3 && Nat.eqb b0 1 && Nat.eqb ob (Nat.max b1 b2)
+  | Oconcat => nargs 2 && Nat.eqb ob (b0 + b1)
+  | Obts | Obtc => nargs 2 && is_const (arg 1 a) && Nat.eqb ob 1
+  | Ohamming => nargs 2 && Nat.leb 2 mx && Nat.leb 1 ob
   | Ounsupported => false
   end.
+
+(* GMW target: NewUDivider dispatches to the Goldschmidt divider, which is not
+   exact (C07: F31-F33) — division is excluded there *)
+Definition is_div (o : opcode) : bool :=
+  match o with Oidiv | Oudiv | Oimod | Oumod => true | _ => false end.
+Definition ok_tg (tg : bool) (i : instr) : bool := negb tg || negb (is_div (i_op i)).
 
 (* at least one input wire (circuits.NewCompiler: "no inputs defined");
    InputWires[0] is wire 0 *)
 Definition cg_wf (p : sprog) : bool :=
   Nat.leb 1 (total_bits (sp_inputs p)) && forallb cg_wf_instr (sp_code p).
+
+(* per target: tg = false Yao, tg = true GMW (no division) *)
+Definition cg_wf_tg (tg : bool) (p : sprog) : bool :=
+  cg_wf p && forallb (ok_tg tg) (sp_code p).
 
 End CG.
 
